@@ -5,7 +5,7 @@ open Otel Otel.Wire Otel.C01
 
 /-! Line kinds
 `sched <gen> <cap> <maxB> <blocking> | <op> <op> … => <obs> <obs> …`   one observation per op
-   ops: `e<id>` `g+` `g-` `f<fid>` `s`; leg `park` (build tag verif) adds `p<id>`/`r<id>` (OnEnd parked after its stopped check /
+   ops: `e<id>` `g+` `g-` `gt` (exporter returns when its context is done: export timeout) `f<fid>` `s`; leg `park` (build tag verif) adds `p<id>`/`r<id>` (OnEnd parked after its stopped check /
         released), `fp<fid>`/`fr<fid>` (ForceFlush likewise), `sp`/`sr` (Shutdown parked after storing stopped / released)
    obs: `L=<b1/b2/…>;X=<0|1>;F=<fid>:<p|o|e>,…;S=<n|p|o>;D=<dropped>;Q=<len(queue)>;E=<ids whose OnEnd returned>`
         batches/ids as dot-separated lists, `-` when empty; `H` = number of exporter Shutdown calls so far
@@ -21,7 +21,7 @@ def parseDot (s : String) : Option (List Nat) :=
   if s == "-" then some [] else (s.splitOn ".").mapM (·.toNat?)
 
 def parseOp (t : String) : Option Op :=
-  if t == "g+" then some (.gate true) else if t == "g-" then some (.gate false)
+  if t == "g+" then some (.gate true) else if t == "g-" || t == "gt" then some (.gate false)
   else if t == "s" then some .sd
   else if t == "sp" then some .parkSd
   else if t == "sr" then some .releaseSd
